@@ -129,6 +129,12 @@ theorem c13_depack (hleb : LebGoSpec) (pks : List Pk) (hgood : ∀ p ∈ pks, Pk
    FramesRT.framesOf_encode hleb pks hgood hchain,
    denote_encode pks (fun p hp => (hgood p hp).shape)⟩
 
+/-- The statement-by-statement byte-level transcription of AV1Payloader (`AV1B.payloadB`, what the
+    driver runs against the implementation) and the record-based model the theorems above are
+    stated about compute the same payloads, for every MTU and every input. -/
+theorem c13_payload_models_agree (mtu : UInt16) (data : Bytes) :
+    AV1B.payloadB mtu data = AV1.payload mtu data := AV1B.payloadB_eq mtu data
+
 /-- kind `c13.rt`: for every MTU ≥ 2 and every well-formed OBU sequence (any types, with or without
     extension header, last OBU with or without size field) the predicate the harness evaluates on
     the real code holds of the model: rules, denotation, element structure seen by AV1Packet,
